@@ -53,6 +53,11 @@ def run(F, rep, tier):
     import_pass(F, rep)
     chained_namespace(F, rep)
     _split_keeps_initialisation_order(F, rep)
+    file_ids_unique(F, rep)
+    # every global of every loaded file is ordered, checked and initialised - the walk over the globals starts from all of them,
+    # not only from those of the main file (shared with C11)
+    import c07
+    c07.visit_loops_complete(F, rep)
     # splitting moves globals to another file, which the checker reaches later: nothing may be decided about a type only
     # because it is not known *yet* (shared with C08 and C11)
     import core
@@ -638,3 +643,41 @@ def _is_parent_of(e, params):
                         return "the Some arm yields `%s`" % pp(body)[:60]
         return True
     return "`%s`" % pp(e)[:80]
+
+
+def file_ids_unique(F, rep, rule="FILE-ID"):
+    """A module's id (the file_id in every span of its tokens) is what tells its diagnostics and its globals from another
+    module's.  It is taken from the size of a collection; that collection has to grow by one for *every* module that gets an id -
+    unconditionally, in the same turn of the loop - or two modules share an id (a file that fails to parse is not pushed to
+    `modules`: the next file gets the same id, and two errors at equal positions in the two files become one)."""
+    fn = F.fn("sylt_parser::tree")
+    rep.analysed(fn)
+    n = 0
+    for lp in [x for x in nodes(fn_body(fn)) if x.get("k") in ("While", "Loop", "ForLoop")]:
+        body = peel(lp["body"])
+        if body.get("k") != "Block":
+            continue
+        stmts = body["stmts"]
+        for i, st in enumerate(stmts):
+            if st.get("k") != "Let" or st.get("init") is None:
+                continue
+            init = peel(st["init"])
+            bs = pat_bindings(st["pat"])
+            if not (init.get("k") == "MethodCall" and init["m"] == "len" and len(bs) == 1 and "id" in bs[0]["name"]):
+                continue
+            src = peel(init["recv"])
+            if not (src.get("k") == "Path" and src.get("res") == "Local"):
+                continue
+            n += 1
+            grows = False
+            for later in stmts[i + 1:]:
+                e = later.get("e") if later.get("k") in ("Semi", "ExprStmt") else (later.get("init") if later.get("k") == "Let" else None)
+                e = peel(e) if isinstance(e, dict) else None
+                if isinstance(e, dict) and e.get("k") == "MethodCall" and e["m"] in ("insert", "push") and peel(e["recv"]).get("hid") == src["hid"]:
+                    grows = True
+            rep.ob(rule, "tree|%s-from-a-collection-that-grows-every-turn" % bs[0]["name"], grows,
+                   "`%s` is the size of `%s`, which grows by one in every turn that hands out an id" % (bs[0]["name"], src.get("name")) if grows else
+                   "`%s` is the size of `%s`, but `%s` does not grow unconditionally in the turn that takes the id (a file that fails to parse "
+                   "is not added): the next file gets the same id - spans of two files compare equal, errors at equal positions are "
+                   "merged and diagnostics name the wrong file" % (bs[0]["name"], src.get("name"), src.get("name")), line_of(st))
+    rep.floor(rule, "ids taken from collection sizes in tree()", n, 1)
